@@ -149,6 +149,17 @@ def run(chk):
             ev.append(("cbloop", True))
         return ev
 
+    # the order of bookkeeping and notify_all inside ONE `with cond:` block cannot be observed: a woken waiter needs the lock, which is
+    # released only at the end of the block.  `notified` is therefore the id of the with-block the notify sits in (-1: none).
+    from .common import enclosing as _enclosing
+
+    def with_of(n):
+        ws = [w for w in _enclosing(f.node, n.ast, (ast.With,)) if any(src(it.context_expr) == cond for it in w.items)]
+        return id(ws[-1]) if ws else -1
+
+    def same_with(n, wid):
+        return wid != -1 and with_of(n) == wid
+
     # state: (log, act, notified, cbloops, cbcalls_in_iteration)
     def step(n, s):
         log, act, notified, loops = s
@@ -156,21 +167,22 @@ def run(chk):
             if kind == "log":
                 if not good:
                     return ["ERR:log.append called with something other than the entry"]
-                if notified:
+                if notified and not same_with(n, notified):
                     return ["ERR:log.append after notify_all (a woken waiter may not see the entry)"]
                 log = min(log + 1, 2)
             elif kind in ("act_app", "act_reset"):
                 if not good:
                     return [f"ERR:active list updated with the wrong value ({kind})"]
-                if notified:
+                if notified and not same_with(n, notified):
                     return ["ERR:active list updated after notify_all"]
                 act = min(act + 1, 2)
             elif kind == "log_other":
                 return ["ERR:the log is rebound or mutated other than by append(entry)"]
             elif kind == "notify":
-                notified = True
+                notified = with_of(n)
             elif kind == "cbloop":
-                pass
+                if not notified:
+                    return ["ERR:callbacks run before the waiters are woken (a callback that raises leaves wait() asleep although the frame was logged)"]
         return [(log, act, notified, loops)]
 
     ex, rz, errs, IN = typestate(ff.cfg, [(0, 0, False, 0)], step)
